@@ -37,6 +37,9 @@ CORNERS = [
     "@print " + "0" * 4400, "@assert " + "7" * 4301 + " > 0", "@extent " + "8" * 4400,
     "uint" + "9" * 4400 + " wide", "int" + "9" * 4400 + " wide", "float" + "9" * 4400 + " wide", "void" + "9" * 4400, "truncated uint" + "9" * 4400 + " w",
     "uint8[<=3] arr_\nuint" + "1" * 4301 + " w2", "@extent 10 ** 5000 + 1", "@extent 10 ** 5000", "@extent 8 * 10 ** 4400", "@extent -(10 ** 5000)", "@extent 10 ** 5000 / 3",
+    "@print 1 ** (2 ** 1100)", "@print (-1) ** (10 ** 400)", "@print 0 ** (10 ** 400)", "@print 2 ** (2 ** 1100)", "uint8[<=2 ** (2 ** 1100)] pw", "@print 2 ** 2 ** 2 ** 2",
+    "@print {1, 2} ** (2 ** 1100)", "@print 1.5 ** (2 ** 1100)", "@print 2 ** -(2 ** 1100)", "@print 2 ** (2 ** 1100 + 0.5)", "@assert 1 ** (2 ** 1024) == 1", "@print (1/2) ** (2 ** 1030)",
+    "@print (2 ** 1100) ** (2 ** 1100)", "@print 3 ** (3 ** 7) ** 2", "@print (10 ** 5000) ** 1000 > 0", "@print 2 ** (2 ** 1023)", "@print (-2) ** (2 ** 1100 + 1)",
     "uint8 a # \x00 control in a comment", "uint8 é", "uint8 a\x0bb", "\ufeffuint8 a", "uint8 a\x0c", "uint8\u00a0a", "uint8 a\u2028uint8 b",
 ]
 SVC_CORNERS = ["%s svc_field\n@print _offset_", "%s svc_field\n@assert _offset_.count > 0", "uint8 pre_svc\n%s svc_field\nuint8[<=_offset_.max + 1] post_svc", "%s[<=2] svc_var\n@print _offset_",
@@ -101,11 +104,11 @@ def bounded(text: str) -> bool:
     if len(text) > 12000:
         return False
     for ln in text.split("\n"):
-        if ln.count("**") > 1:
+        if ln.count("**") > 3:
             return False
-        m = re.search(r"\*\*\s*\(?\s*-?\s*(\d[\d_]*)", ln)
-        if m and len(m.group(1).replace("_", "")) > 4:  # exponent of at most 4 digits
-            return False
+        for m in re.finditer(r"\*\*\s*\(?\s*-?\s*\(?\s*(\d[\d_]*)", ln):
+            if len(m.group(1).replace("_", "")) > 4:  # literal exponents of at most 4 digits
+                return False
         if re.search(r"\d{4500,}", ln):
             return False
         depth = mx = 0
@@ -207,7 +210,7 @@ class C13(Check):
             "distinct = hash of (fault kind, resulting exception class, target or dependency); non-trivial = the corrupted text "
             "differs from the original and the file was opened by the reader (probe)")
     TIERS = {"quick": {"runs": 3200, "budget_s": 50}, "thorough": {"runs": 200000, "budget_s": 1200}}
-    ASSUMPTIONS = ["bounded magnitude and nesting (pre-filter 'bounded()' in dsim/checks/c13.py): at most one ** per line with an exponent of "
+    ASSUMPTIONS = ["bounded magnitude and nesting (pre-filter 'bounded()' in dsim/checks/c13.py): at most three ** per line with literal exponents of "
                    "at most 4 digits, bracket depth <= 12, text <= 12000 characters, numeric literals <= 4500 digits",
                    "not injected: dangling symlinks and symlinks to files outside the root directory, unreadable files, non-UTF-8 bytes"]
 
